@@ -582,7 +582,7 @@ ScriptStep(s) ==
               nxt == [S EXCEPT !.opi = S.opi + 1]
               \* `watch x` is the idiom: if x exists, redo-ifchange x, else redo-ifcreate x
               op  == IF o.op = "watch"
-                     THEN (IF fs[o.args[1]].ex THEN "ifchange" ELSE "ifcreate") ELSE o.op
+                     THEN (IF Exists(fs, o.args[1]) THEN "ifchange" ELSE "ifcreate") ELSE o.op
           IN
           CASE op = "ifchange" ->
                  LET k == s \o <<ToString(S.opi)>> IN
@@ -615,7 +615,7 @@ ScriptStep(s) ==
                  LET F[k \in 0..Len(o.args)] ==
                         IF k = 0 THEN [w |-> FromName(w, S.t), ok |-> TRUE]
                         ELSE IF ~F[k-1].ok THEN F[k-1]
-                        ELSE IF fs[o.args[k]].ex THEN [w |-> F[k-1].w, ok |-> FALSE]
+                        ELSE IF Exists(fs, o.args[k]) THEN [w |-> F[k-1].w, ok |-> FALSE]
                         ELSE [w |-> AddDep(F[k-1].w, S.t, "c", o.args[k]), ok |-> TRUE]
                      r == F[Len(o.args)]
                  IN
